@@ -8,15 +8,16 @@ import Proofs.SafeTop
 namespace AuthbossModel.M
 
 /-- What the middlewares in front of a route handler leave alone: the request, the
-configuration, the clock, every user record; the session view can only shrink. -/
+configuration, the clock, every user record; apart from the half-auth mark (which the remember
+middleware adds for the request it authenticates) the session view can only shrink. -/
 def MwReach (c c' : Ctx) : Prop :=
   c'.req = c.req ∧ c'.cfg = c.cfg ∧ c'.now = c.now ∧ c'.store.users = c.store.users ∧
-  (∀ k v, c'.sess.get k = some v → c.sess.get k = some v)
+  (∀ k v, k ≠ SKey.halfauth → c'.sess.get k = some v → c.sess.get k = some v)
 
-theorem MwReach.refl (c : Ctx) : MwReach c c := ⟨rfl, rfl, rfl, rfl, fun _ _ h => h⟩
+theorem MwReach.refl (c : Ctx) : MwReach c c := ⟨rfl, rfl, rfl, rfl, fun _ _ _ h => h⟩
 theorem MwReach.trans {a b c : Ctx} (h1 : MwReach a b) (h2 : MwReach b c) : MwReach a c :=
   ⟨h2.1.trans h1.1, h2.2.1.trans h1.2.1, h2.2.2.1.trans h1.2.2.1, h2.2.2.2.1.trans h1.2.2.2.1,
-   fun k v h => h1.2.2.2.2 k v (h2.2.2.2.2 k v h)⟩
+   fun k v hk h => h1.2.2.2.2 k v hk (h2.2.2.2.2 k v hk h)⟩
 
 def Keeps {α} (h : H α) : Prop := ∀ c, MwReach c (h c).2
 
@@ -24,7 +25,7 @@ theorem Keeps.pure {α} (a : α) : Keeps (pure a : H α) := fun c => MwReach.ref
 theorem Keeps.get : Keeps M.get := fun c => MwReach.refl c
 theorem Keeps.stop {α} (s) : Keeps (M.stop s : H α) := fun c => MwReach.refl c
 theorem Keeps.fail {α} (e) : Keeps (M.fail e : H α) := fun c => MwReach.refl c
-theorem Keeps.backend : Keeps M.backend := fun c => ⟨rfl, rfl, rfl, rfl, fun _ _ h => h⟩
+theorem Keeps.backend : Keeps M.backend := fun c => ⟨rfl, rfl, rfl, rfl, fun _ _ _ h => h⟩
 theorem Keeps.modify (f : Ctx → Ctx) (hf : ∀ c, MwReach c (f c)) : Keeps (M.modify f) := fun c => hf c
 
 theorem Keeps.bind {α β} {m : H α} {f : α → H β} (hm : Keeps m) (hf : ∀ a, Keeps (f a)) :
@@ -86,6 +87,48 @@ theorem filter_get {j : Jar} {q : SKey → Bool} {k : SKey} {v : Bytes}
       · simp only [List.filter_cons, hp, List.find?_cons, hk] at h ⊢
         exact ih (by simpa using h)
 
+/-! ### Jar lemmas -/
+
+theorem Jar.get_append (j1 j2 : Jar) (k : SKey) :
+    Jar.get (j1 ++ j2) k = (Jar.get j1 k).or (Jar.get j2 k) := by
+  unfold Jar.get
+  rw [List.find?_append]
+  cases List.find? (fun x => x.1 == k) j1 <;> simp
+
+theorem Jar.get_del_sub {j : Jar} {k k' : SKey} {v : Bytes} (h : (j.del k).get k' = some v) :
+    j.get k' = some v := by
+  unfold Jar.del at h
+  exact filter_get (q := fun x => x != k) h
+
+theorem Jar.get_delAll_sub {j : Jar} {wl : List SKey} {k' : SKey} {v : Bytes}
+    (h : (j.delAll wl).get k' = some v) : j.get k' = some v := by
+  unfold Jar.delAll at h
+  exact filter_get (q := fun x => wl.contains x) h
+
+theorem Jar.get_del_self (j : Jar) (k : SKey) : (j.del k).get k = none := by
+  unfold Jar.del Jar.get
+  have := find_filter_key_none j (fun x => x != k) k (by simp)
+  simp [this]
+
+theorem Jar.get_put {j : Jar} {k k' : SKey} {v v' : Bytes} (h : (j.put k v).get k' = some v') :
+    (k' = k ∧ v' = v) ∨ (k' ≠ k ∧ j.get k' = some v') := by
+  unfold Jar.put at h
+  rw [Jar.get_append] at h
+  by_cases hk : k' = k
+  · subst hk
+    rw [Jar.get_del_self] at h
+    left; refine ⟨rfl, ?_⟩
+    simp [Jar.get] at h; exact h.symm
+  · right; refine ⟨hk, ?_⟩
+    cases hd : (j.del k).get k' with
+    | some x =>
+      rw [hd] at h; simp at h; subst h; exact Jar.get_del_sub hd
+    | none =>
+      rw [hd] at h
+      simp [Jar.get] at h
+      exact absurd h.1.symm hk
+
+
 /-! ### The middlewares -/
 
 syntax "keeps_auto" : tactic
@@ -94,7 +137,7 @@ macro_rules
     repeat' (first
       | exact Keeps.pure _ | exact Keeps.get | exact Keeps.stop _ | exact Keeps.fail _ | exact Keeps.backend
       | assumption
-      | (apply Keeps.modify; intro c; exact ⟨rfl, rfl, rfl, rfl, fun _ _ h => h⟩)
+      | (apply Keeps.modify; intro c; exact ⟨rfl, rfl, rfl, rfl, fun _ _ _ h => h⟩)
       | apply Keeps.swallowErr
       | apply Keeps.ite
       | apply Keeps.bind
@@ -119,7 +162,13 @@ theorem Keeps.refreshExpiry : Keeps M.refreshExpiry := by
 theorem Keeps.rememberAuthenticate : Keeps M.rememberAuthenticate := by
   unfold M.rememberAuthenticate
   have := Keeps.delRm; have := Keeps.logf; have := Keeps.useToken; have := Keeps.putS; have := Keeps.putRm
-  keeps_auto
+  repeat' (first
+    | (apply Keeps.modify; intro c
+       refine ⟨rfl, rfl, rfl, rfl, fun k v hk h => ?_⟩
+       rcases Jar.get_put h with ⟨h1, _⟩ | ⟨_, h2⟩
+       · exact absurd h1 hk
+       · exact h2)
+    | keeps_auto)
 
 theorem Keeps.rememberMW : Keeps M.rememberMW := by
   unfold M.rememberMW
@@ -137,7 +186,7 @@ theorem Keeps.expireMW : Keeps M.expireMW := by
       apply Keeps.bind (Keeps.delS _); intro _
       apply Keeps.modify
       intro c'
-      exact ⟨rfl, rfl, rfl, rfl, fun k v h => filter_get (q := fun k => c'.cfg.whitelist.contains k) h⟩
+      exact ⟨rfl, rfl, rfl, rfl, fun k v _ h => filter_get (q := fun k => c'.cfg.whitelist.contains k) h⟩
     · exact Keeps.refreshExpiry
   · exact Keeps.pure _
 
